@@ -716,6 +716,17 @@ def seq_slice_term(t, lo, hi, sort=BytesSort):
             pos = b
         if ok:
             return mk_concat(out, sort)
+    if sort == BytesSort and len(chunks) > 1:
+        # symbolic bounds that coincide (as terms) with chunk boundaries: the slice is exactly those chunks
+        cums = [z3.IntVal(0)]
+        for c in chunks:
+            cums.append(z3.simplify(cums[-1] + blen(c)))
+        lo_s = z3.IntVal(0) if lo is None else (z3.IntVal(lo) if isinstance(lo, int) else z3.simplify(lo))
+        hi_s = cums[-1] if hi is None else (z3.IntVal(hi) if isinstance(hi, int) else z3.simplify(hi))
+        ia = [k for k, cu in enumerate(cums) if z3.is_true(z3.simplify(cu == lo_s)) or cu.eq(lo_s)]
+        ib = [k for k, cu in enumerate(cums) if z3.is_true(z3.simplify(cu == hi_s)) or cu.eq(hi_s)]
+        if ia and ib and ia[0] <= ib[-1]:
+            return mk_concat(chunks[ia[0]:ib[-1]], sort)
     L = blen(t) if sort == BytesSort else z3.Length(t)
     lo_t = z3.IntVal(0) if lo is None else (z3.IntVal(lo) if isinstance(lo, int) else lo)
     hi_t = L if hi is None else (z3.IntVal(hi) if isinstance(hi, int) else hi)
